@@ -128,6 +128,9 @@ def make_rec_handler(world):
         """Injected application failure: the armed handler callback raises like a handler whose
         storage is full (op `hfail`)."""
         n = world.handler_fail_in
+        only = world.cfg.get("hfail_only")
+        if only and name not in only:
+            return
         if n is not None:
             n -= 1
             world.handler_fail_in = n if n > 0 else None
@@ -172,12 +175,18 @@ def make_rec_handler(world):
 
         def on_connection_lost(self, peer):
             world.note("h", "on_connection_lost", world.cid_of(peer))
+            if world.cfg.get("hfail_everywhere"):
+                fault("on_connection_lost")
 
         def on_connection_failed(self, peer, msg):
             world.note("h", "on_connection_failed", str(msg))
+            if world.cfg.get("hfail_everywhere"):
+                fault("on_connection_failed")
 
         def on_established(self, peer, msg):
             world.note("h", "on_established")
+            if world.cfg.get("hfail_everywhere"):
+                fault("on_established")
 
     return _Rec()
 
@@ -371,6 +380,8 @@ class World(object):
             self.exited = True
             self.factory = None
             self.note("exit", "boot")
+            if self.fs is not None:
+                self.fs.process_exit()      # interpreter shutdown flushes the files that are still open
         except simfs.Crash as c:
             self.on_crash("boot", c)
         except budget.StepBudgetExceeded:
@@ -379,6 +390,8 @@ class World(object):
             self.exited = True
             self.factory = None
             self.note("exc", "boot", type(e).__name__, str(e)[:200])
+            if self.fs is not None:
+                self.fs.process_exit()
 
     # ------------------------------------------------------------------ views
     def live_conns(self):
@@ -637,6 +650,15 @@ class World(object):
             return False
         self.fs.arm(after_calls, mode, keep)
         self.fs.arm_lose_files = bool(lose_files)
+        return True
+
+    def op_ioerr(self, after_calls, errno=28, partial=0):
+        """The first flush or fsync of the message log at or after `after_calls` file-system calls from now
+        fails with OSError(errno) (28 ENOSPC, 5 EIO); for a flush, `partial` bytes of the buffered data
+        reach the file before the error.  One-shot: the next attempt succeeds (space was freed)."""
+        if self.fs is None or self.exited:
+            return False
+        self.fs.arm_io_error(after_calls, errno, partial)
         return True
 
 
